@@ -985,10 +985,9 @@ def resolvedName (s : Spec) (f0 : FieldEl) : Str :=
   | .ok f => orEmpty f.name
   | .error _ => []
 
-/-- the fields of one record or message.  A record or message without fields is excluded: known finding
-    (`Record.to_bytes` of an empty `Fields` list raises `IndexError`). -/
+/-- the fields of one record or message (possibly none: a message may consist of its id byte only) -/
 def wfFields (s : Spec) (seen : List Str) (fs : List FieldEl) : Bool :=
-  !fs.isEmpty && fs.all (wfField s seen) && !hasDup (fs.map (resolvedName s))
+  fs.all (wfField s seen) && !hasDup (fs.map (resolvedName s))
 
 /-- a record may use the records declared before it -/
 def wfRecords (s : Spec) : List Str → List RecordEl → Bool
@@ -1019,7 +1018,6 @@ def classNames (s : Spec) : List Str :=
 
 /-- the specifications the property quantifies over.  Excluded, each with a known finding or a stated reason:
     arrays of fixed-length strings; characters `& " < > ' \` and line breaks in character constants;
-    records / messages without fields;
     `array="double"`, `ref=`, boolean constants (undocumented); names that are not fresh ASCII identifiers. -/
 def wfSpec (impl : Impl) (s : Spec) : Bool :=
   (classNames s).all (fun n => isIdent n && !(reservedNames impl).contains n) && !hasDup (classNames s)
